@@ -1250,6 +1250,25 @@ def _pa_join_resolution(rep, rj):
         rep.undecided('variable resolution', rj, 'expected `return (A expressions, B indices)`')
         return
     a_list, b_list = rets[0].value.elts[0].id, rets[0].value.elts[1].id
+    # the two results may be unzipped after the loop from one list of (A expression, B index) pairs
+    pair_list = None
+    unz = {}
+    for k_, nm_ in enumerate((a_list, b_list)):
+        ds_ = [n for n in walk_no_nested(rj) if isinstance(n, ast.Assign) and len(n.targets) == 1 and is_name(n.targets[0], nm_)]
+        if len(ds_) == 1 and isinstance(ds_[0].value, ast.ListComp) and len(ds_[0].value.generators) == 1 and not ds_[0].value.generators[0].ifs:
+            g_ = ds_[0].value.generators[0]
+            if isinstance(g_.iter, ast.Name) and isinstance(g_.target, (ast.Tuple, ast.List)) and len(g_.target.elts) == 2 and isinstance(ds_[0].value.elt, ast.Name) and is_name(g_.target.elts[k_], ds_[0].value.elt.id):
+                unz[k_] = g_.iter.id
+    if len(unz) == 2 and unz[0] == unz[1]:
+        pair_list = unz[0]
+    # module-level tuples / lists of constants the function refers to by name
+    mod_tables = {}
+    m_ = rj
+    while m_ is not None and not isinstance(m_, ast.Module):
+        m_ = getattr(m_, 'parent', None)
+    for st_ in (m_.body if m_ is not None else []):
+        if isinstance(st_, ast.Assign) and len(st_.targets) == 1 and isinstance(st_.targets[0], ast.Name) and isinstance(st_.value, (ast.Tuple, ast.List, ast.Set)) and st_.value.elts and all(isinstance(e, ast.Constant) and isinstance(e.value, str) for e in st_.value.elts):
+            mod_tables[st_.targets[0].id] = st_.value
     bad_res, bad_swap, bad_nr, bad_expr, und = [], [], [], [], []
     seen_sw = {True: set(), False: set()}
     n_nr = 0
@@ -1258,12 +1277,16 @@ def _pa_join_resolution(rep, rj):
         for c in q.calls:
             if isinstance(c, ast.Call) and isinstance(c.func, ast.Attribute) and c.func.attr in ('append', 'push') and isinstance(c.func.value, ast.Name) and len(c.args) == 1:
                 app.setdefault(c.func.value.id, []).append(c.args[0])
-        if len(app.get(a_list, [])) != 1 or len(app.get(b_list, [])) != 1:
+        if pair_list is not None and len(app.get(pair_list, [])) == 1 and isinstance(app[pair_list][0], (ast.Tuple, ast.List)) and len(app[pair_list][0].elts) == 2:
+            ea, eb = app[pair_list][0].elts
+        elif len(app.get(a_list, [])) != 1 or len(app.get(b_list, [])) != 1:
             und.append('a completing path does not append exactly one A expression and one B index')
             continue
-        ea, eb = app[a_list][0], app[b_list][0]
+        else:
+            ea, eb = app[a_list][0], app[b_list][0]
         ats = PS.atoms(q.conds)
         mem = [(m, pol) for (m, pol) in ((membership(t), pol) for t, pol in ats) if m is not None]
+        mem = [((k_, mod_tables.get(b_.id, b_) if isinstance(b_, ast.Name) else b_, p_), pol) for (k_, b_, p_), pol in mem]
         # record-number spellings tested true on this path
         nr_a = [which(k) for (k, box, pos), pol in mem if pos == pol and isinstance(box, (ast.List, ast.Tuple, ast.Set)) and any(isinstance(x, ast.Constant) and x.value == 'a.NR' for x in box.elts)]
         nr_b = [which(k) for (k, box, pos), pol in mem if pos == pol and isinstance(box, (ast.List, ast.Tuple, ast.Set)) and any(isinstance(x, ast.Constant) and x.value == 'b.NR' for x in box.elts)]
@@ -1307,6 +1330,8 @@ def _pa_join_resolution(rep, rj):
             ('aNR == b-field', {1: 'aNR', 2: 'B'}, 1), ('a-field == bNR', {1: 'A', 2: 'bNR'}, 1), ('b-field == aNR (not supported: must be rejected or resolved with aNR on the A side)', {1: 'B', 2: 'aNR'}, None)]
 
     def box_kind(box):
+        if isinstance(box, ast.Name) and box.id in mod_tables:
+            box = mod_tables[box.id]
         if is_name(box, a_map):
             return 'A'
         if is_name(box, b_map):
@@ -1378,7 +1403,12 @@ def rule_pa_join(cx, rep, port):
     rep.decide(len(andp) == 1 and andp[0][1], 'AND keyword', andp[0][2] if andp else fd, 'AND is matched case-insensitively', 'the AND between key pairs is not matched case-insensitively')
     # resolve_join_variables
     rj = p.func(mod, 'resolve_join_variables')
-    lists = [n for n in ast.walk(rj) if isinstance(n, ast.List) and n.elts and all(isinstance(e, ast.Constant) and isinstance(e.value, str) and 'NR' in e.value for e in n.elts)]
+    lists = [n for n in ast.walk(rj) if isinstance(n, (ast.List, ast.Tuple, ast.Set)) and n.elts and all(isinstance(e, ast.Constant) and isinstance(e.value, str) and 'NR' in e.value for e in n.elts)]
+    # ... or module-level tables of the spellings that the function names
+    used_ = {x.id for x in ast.walk(rj) if isinstance(x, ast.Name)}
+    for st_ in p.modules[mod].body:
+        if isinstance(st_, ast.Assign) and len(st_.targets) == 1 and isinstance(st_.targets[0], ast.Name) and st_.targets[0].id in used_ and isinstance(st_.value, (ast.List, ast.Tuple, ast.Set)) and st_.value.elts and all(isinstance(e, ast.Constant) and isinstance(e.value, str) and 'NR' in e.value for e in st_.value.elts):
+            lists.append(st_.value)
     vals = sorted(tuple(sorted(e.value for e in l.elts)) for l in lists)
     rep.decide(vals == [('NR', 'a.NR', 'aNR'), ('b.NR', 'bNR')], 'NR keys', lists[0] if lists else rj, 'NR/a.NR/aNR on the A side, bNR/b.NR on the B side', 'record-number key spellings are {}'.format(vals))
     _pa_join_resolution(rep, rj)
